@@ -9,4 +9,9 @@ CHECKS = {
   "text": "Theorems (closed under the global context) state that the model of ProfileReader.readHeader returns, for every 128-byte header carrying 'acsp' and any continuation, exactly the big-endian field values at the ICC.1:2010 offsets (flags = bits 0/1 of byte 47, version = major.minor.bugfix nibbles) and rejects every header without the signature. The model is bound to the Go code on every run by comparing ReadProfile with the extracted model on walking-ones over all 1024 header bits, version bytes, date-time boundaries, random and truncated headers; an independent Go oracle of the offset table judges the implementation directly.",
   "note": "Trusted: Coq kernel; the hand-written model (validated by the correspondence stream icc_header); extraction (ExtrOcamlBasic only); time.Date normalisation of invalid date components is not modelled (compared only for valid components).",
  },
+ "C17": {
+  "technique": "Coq proof by induction over the tag list and the mluc record list against byte-level builders; model tied by differential correspondence",
+  "text": "Theorems (closed under the global context): for every well-formed profile (any number of tags incl. zero, any table order, data blocks anywhere after the table, shared or padded) the model of ReadProfile succeeds and each tag's data is the block at its declared offset/size; the v2 decoder returns the ASCII text; the mluc decoder returns, for any number of records and any string placement, the UTF-16BE string at each record's declared offset, and the description is an English record's string when one exists, otherwise some record's. The model is bound to the Go code on every run by comparing ReadProfile+Description with the extracted model on generated profiles (0-64 tags, all layouts, 1-40 records, ASCII/BMP/astral text); a generator-side oracle knows the embedded strings.",
+  "note": "Trusted: Coq kernel; the hand-written model (validated by the correspondence stream icc_desc); extraction; unicode/utf16.Decode and string(rune) are modelled (utf16_decode, utf8_encode) and compared byte-for-byte; Go map iteration order is modelled as a set of allowed results.",
+ },
 }
